@@ -62,6 +62,13 @@ def graphs():
                           "plugins": [{"name": "r1", "type": "row", "deps": ["ev"], "save_when": "ALWAYS", "rechunk_on_save": True},
                                       {"name": "top", "type": "row", "deps": ["r1"], "field": "v1", "save_when": "ALWAYS", "rechunk_on_save": True}],
                           "target": "top", "side": "r1", "mid": "r1", "only": ["saver_target", "saver_side", "none", "close"], "max_at": 0}
+    nlong = 40
+    g["long"] = {"sources": [{"name": "ev", "kind": "ev", "rows": [(10 * i, 10 * i + 3, i + 1) for i in range(nlong)],
+                              "cuts": [10 * i for i in range(nlong + 1)]}],
+                 "plugins": [{"name": "r1", "type": "row", "deps": ["ev"], "save_when": "ALWAYS", "rechunk_on_save": False},
+                             {"name": "top", "type": "row", "deps": ["r1"], "field": "v1", "save_when": "ALWAYS", "rechunk_on_save": False}],
+                 "target": "top", "side": "r1", "mid": "r1", "only": ["saver_target", "saver_side", "close", "mid", "none"],
+                 "max_at": 2, "min_at": 1, "max_messages": 2, "src_bound": 4 * (2 + 2) + 2 * 3 + 2}
     g["multi"] = {"sources": [{"name": "ev", "kind": "ev", "rows": ROWS_EV, "cuts": CUTS}],
                   "plugins": [{"name": "m", "type": "multi", "deps": ["ev"], "save_when": {"ma": "ALWAYS", "mb": "ALWAYS"},
                                "rechunk_on_save": {"ma": False, "mb": False}},
@@ -76,7 +83,7 @@ def graphs():
 
 
 def positions(gname, g):
-    n = len(CUTS) - 1
+    n = min(len(CUTS) - 1, len(g["sources"][0]["cuts"]) - 1)
     pos = [{"stage": "none"}]
     for i in range(n):
         pos.append({"stage": "source", "who": "ev", "at": i})
@@ -92,7 +99,7 @@ def positions(gname, g):
     if gname == "loop":
         pos.append({"stage": "source", "who": "th", "at": 1})
     if "only" in g:
-        pos = [p for p in pos if p["stage"] in g["only"] and (p["stage"] in ("none", "close") or p["at"] <= g["max_at"])]
+        pos = [p for p in pos if p["stage"] in g["only"] and (p["stage"] == "none" or g.get("min_at", 0) <= p["at"] <= g["max_at"])]
     return pos
 
 
@@ -156,7 +163,7 @@ def run_one(gname, g, pos, cfg, chooser=None, real=False):
     extra = {}
     if pos["stage"] in ("source", "mid", "top"):
         extra["fail_" + pos["who"]] = pos["at"]
-    scfg = {"processor": cfg["processor"], "allow_lazy": cfg["lazy"], "max_messages": cfg.get("max_messages", 6),
+    scfg = {"processor": cfg["processor"], "allow_lazy": cfg["lazy"], "max_messages": g.get("max_messages", 6),
             "timeout": 30 if not real else 60}
     try:
         if pos["stage"] == "loader":
@@ -231,6 +238,20 @@ def run_one(gname, g, pos, cfg, chooser=None, real=False):
             reached = inj.reached or any(
                 e.get("p") == pos.get("who") and (e.get("call") == pos.get("at") or e.get("chunk_i") == pos.get("at"))
                 for e in hp.events()) if pos["stage"] in ("source", "mid", "top") else inj.reached
+        out["source_calls"] = sum(1 for e in hp.events() if e.get("src"))
+        out["storage_errors"] = []
+        if pos["stage"] == "none" and caught is None and not out.get("deadlock"):
+            # fault-free run: everything the run stored must load and be right (a saver that closed before
+            # its queued writes finished leaves listed chunks without files)
+            want_all = oracle.whole_run(spec)
+            for dt in want_all:
+                try:
+                    if hrun.is_stored(spec, d, dt):
+                        got_dt = hrun.load_stored(spec, d, dt)
+                        if not oracle.rows_equal(got_dt, want_all[dt]):
+                            out["storage_errors"].append(f"stored {dt} differs from the whole-run result")
+                except Exception as e:  # noqa: BLE001
+                    out["storage_errors"].append(f"stored {dt} does not load: {e!r}")
         out["got"] = got
         out["caught"] = caught
         out["closed_exc"] = closed_exc
@@ -252,6 +273,13 @@ def judge(g, pos, cfg, out):
     if out.get("unfinished"):
         v.append(("threads-left", f"threads still alive after the call returned: {out['unfinished'][:5]}"))
     c = out["caught"]
+    for t in out.get("storage_errors", []):
+        v.append(("storage", t))
+    if "src_bound" in g and st != "none" and out["reached"]:
+        lim = pos.get("at", 0) + g["src_bound"]
+        if out.get("source_calls", 0) > lim:
+            v.append(("source-keeps-running", f"after the {st} at chunk {pos.get('at')} the source was advanced "
+                                              f"{out['source_calls']} times (bound {lim}): it is not stopped"))
     if st == "none":
         if c is not None:
             v.append(("exception", f"fault-free run raised {c!r}"))
